@@ -141,7 +141,9 @@ Definition repro_hits (ctol : Z) (data : list (zpt * Q)) (nodes : list (list zpt
                                               (Z.abs (snd q - snd (fst pv)) <=? ctol)%Z) data)
                  (List.concat nodes)).
 
-Definition c16_pg (name_in : option string) (east north : list D) (vals : list (list (option D)))
+(** [mode]: 0 = everything; 1 = everything except value reproduction; 2 = value reproduction only
+    (the last two split one observation so that a known reproduction defect can be classified on its own) *)
+Definition c16_pg_core (mode : Z) (name_in : option string) (east north : list D) (vals : list (list (option D)))
     (le ln pe pn : list D) (affine : option (D * D * D * D))
     (region : option (list D)) (spacing : option (list D)) (shape : option (Z * Z))
     (antialias : bool) (method : Z)
@@ -197,10 +199,12 @@ Definition c16_pg (name_in : option string) (east north : list D) (vals : list (
   (* 6. reproduction of the original values (affine, no antialias) *)
   let vq := map (fun t => QD (snd t)) table in
   let vtol := rtol * Qmax 1 (maxabs_list vq) in
+  let zabs := Z.max (Z.max (Z.abs (Zmax_list (map fst P))) (Z.abs (Zmin_list (map fst P))))
+                    (Z.max (Z.abs (Zmax_list (map snd P))) (Z.abs (Zmin_list (map snd P)))) in
   let ctol := ((Z.max (Zmax_list (map fst P) - Zmin_list (map fst P))
-                      (Zmax_list (map snd P) - Zmin_list (map snd P))) / 2 ^ 30)%Z in
+                      (Zmax_list (map snd P) - Zmin_list (map snd P))) / 2 ^ 30 + zabs / 2 ^ 44)%Z in
   let repro := match affine with
-               | Some _ => if antialias then true
+               | Some _ => if antialias || (mode =? 1)%Z then true
                            else repro_holds ctol vtol m (combine P vq) (map (fun r => combine (fst r) (snd r)) (combine nodes mos)) (map (map OQ) ovals)
                | None => true
                end in
@@ -208,7 +212,12 @@ Definition c16_pg (name_in : option string) (east north : list D) (vals : list (
   let holds := name_ok && shape_ok && coords_spec && nan_holds && repro in
   (* a requested spacing within 2^-30 of a rounding tie: the float quotient may round the
      other way, the node count is then not determined; only name and rectangularity are kept *)
+  if (mode =? 2)%Z then mk_verdict (table_ok && affine_ok) repro else
   if tie then (if name_ok && rect then Vskip else Vboth) else mk_verdict agree holds.
+
+Definition c16_pg := c16_pg_core 0.
+Definition c16_pg_norepro := c16_pg_core 1.
+Definition c16_pg_repro := c16_pg_core 2.
 
 (** ** finite strictly inside the hull, on its own (used for antialias=True with
     linear / cubic, where the blocked mean shrinks the interpolator's own hull) *)
